@@ -377,6 +377,11 @@ class HistoryGen:
     def exact_arg(self, h, op):
         """exact= argument for hybrid solvers"""
         if h.cls == "SolverHybrid":
+            if h.kw.get("approximate_first") and self.p.get("approx_first_always_exact"):
+                # in an exact-mode phase a hybrid built with approximate_first is only ever asked with an explicit exact=True
+                # (left to itself it answers from its approximate half, over the full alphabet: C21/C24 territory)
+                op["exact"] = True
+                return
             choices = self.p.get("hybrid_exact", [None, True])
             v = self.r.choice(choices)
             if v is not None:
@@ -488,6 +493,7 @@ class HistoryGen:
             q = self.query_op(kind, hi, h)
             self.emit(q)
             self.kill_and_requery(q, hi, h)
+            self.narrow_and_requery(q, hi, h)
             self.echo(q, hi, h, live)
             return
         if kind in ("simplify", "downsize"):
@@ -565,15 +571,41 @@ class HistoryGen:
                 # drive original and twin in lock-step for a while: determined answers must be equal
                 live = [x for x in self.handles if x.alive]
                 ti = len(live) - 1
+                asked = []
                 for _ in range(r.range(1, 4)):
                     k2 = r.weighted([("sat", 2), ("probe", 3), ("eval", 4), ("min", 2), ("max", 2), ("solution", 2), ("batch_eval", 1)])
                     q = self.query_op(k2, hi, h)
+                    if "e" in q and q["e"][0] in ("var", "const") and r.chance(60) and q["op"] in ("eval", "min", "max"):
+                        q["e"] = self.egf(h).bv(width_of(q["e"], self.vars), 1)
+                    asked.append(q)
                     first = len(self.ops)
                     self.emit(q)
                     q2 = dict(q)
                     q2["h"] = ti
                     q2["same_as"] = first
                     self.emit(q2)
+                # "the same answers from then on": the same constraint to both, then the same questions again (what the
+                # unpickled solver remembered from its first answers must not outlive the constraint change)
+                for _ in range(r.range(0, 2)):
+                    c = None
+                    with_e = [q for q in asked if isinstance(q.get("e"), list) and q["op"] in ("eval", "min", "max")]
+                    if with_e and r.chance(75):
+                        c = self.narrow_constraint(h, r.choice(with_e)["e"])
+                    if c is None:
+                        c = self.gen_constraint(h)
+                    self.emit({"op": "add", "h": hi, "cs": [c]})
+                    self.emit({"op": "add", "h": ti, "cs": [c]})
+                    again = [dict(q) for q in asked if q["op"] != "sat" and r.chance(75)]
+                    for _ in range(r.range(0, 2)):
+                        again.append(self.query_op(r.weighted([("sat", 2), ("eval", 4), ("min", 2), ("max", 3), ("solution", 1)]), hi, h))
+                    for q in again:
+                        q.pop("probe", None)
+                        first = len(self.ops)
+                        self.emit(q)
+                        q2 = dict(q)
+                        q2["h"] = ti
+                        q2["same_as"] = first
+                        self.emit(q2)
                 return
         elif kind == "pickle_expr":
             e = r.choice(self.recent + self.recent_cs) if (self.recent or self.recent_cs) else self.eg.boolean(2)
@@ -826,6 +858,41 @@ class HistoryGen:
                 self.emit({"op": "eval", "h": -1, "e": va, "n": r.choice([1, 3, 40]), "extra": ex})
             else:
                 self.emit({"op": "max", "h": -1, "e": va, "signed": False, "extra": ex})
+
+    def narrow_constraint(self, h, e):
+        """a simple constraint on one variable of e that keeps the set satisfiable and changes the values e can take"""
+        from .spec import spec_vars
+
+        r = self.r
+        if h.ref.kind != "enum" or not isinstance(e, list):
+            return None
+        vs = [v for v in sorted(spec_vars(e)) if self.vars.get(v, 0) > 0]
+        r.shuffle(vs)
+        for v in vs:
+            x = ["var", v]
+            vals = sorted(h.ref.values(x))
+            if len(vals) < 2:
+                continue
+            w = self.vars[v]
+            i = r.below(len(vals) - 1)
+            c = r.choice([["ule", x, ["const", vals[i], w]], ["uge", x, ["const", vals[i + 1], w]], ["ne", x, ["const", r.choice(vals), w]]])
+            t = h.ref.copy()
+            t.add(c)
+            if t.M and t.values(e) != h.ref.values(e):
+                return c
+        return None
+
+    def narrow_and_requery(self, q, hi, h):
+        """Invalidation pattern: after a query on a (compound) expression, narrow one of its variables and ask again - what
+        was derived from the old bounds of the variable (cached values, replacement entries, exhausted marks) must go"""
+        r = self.r
+        if q["op"] not in ("min", "max", "eval") or q.get("extra") or not r.chance(self.p.get("narrow_requery_pct", 12)):
+            return
+        c = self.narrow_constraint(h, q["e"])
+        if c is None:
+            return
+        self.emit({"op": "add", "h": hi, "cs": [c]})
+        self.emit(dict(q))
 
     def kill_and_requery(self, q, hi, h):
         """Invalidation pattern: exclude the value a query has just returned (the optimum, or one of the evaluated
@@ -1085,6 +1152,7 @@ PROFILES = {
         "length": (3, 30),
         "hybrid_exact": [None, None, True],
         "kw_for": {"SolverHybrid": [{}, {}, {"approximate_first": True}]},
+        "approx_first_always_exact": True,
         "dup_in_list_pct": 12,
         "echo_pct": 20,
         "weights": {"pickle": 2, "downsize": 4, "branch": 6, "add_replacement": 3},
